@@ -178,7 +178,8 @@ struct MapStream : Family {
 		}, &what);
 		if (o != OkOut) ctx.fail("C06.fields-equal", "a well-formed map (" + std::to_string(bytes.size()) + " bytes, backend " + backend + ") was not read: " + what);
 		if (posAfter != consumed) ctx.fail(m.trailing.empty() ? "C06.rewrite-equals-consumed" : "C06.trailing-ignored", "reader consumed " + std::to_string(posAfter) + " bytes; the map occupies " + std::to_string(consumed) + " (" + std::to_string(m.trailing.size()) + " trailing bytes follow)");
-		if (box.sim && box.sim->highWater != consumed) ctx.fail("C06.trailing-ignored", "reader touched bytes up to " + std::to_string(box.sim->highWater) + " of the source; the map ends at " + std::to_string(consumed));
+		// touching (reading ahead into) trailing bytes is not forbidden as long as the result and the final position ignore them
+		if (box.sim && box.sim->highWater != consumed) ctx.count("probe.reader_touched_bytes_beyond_the_map");
 		{ Armed a; box.rd.reset(); }
 		std::string d = compareMap(map, m, true);
 		if (!d.empty()) ctx.fail("C06.fields-equal", "map read from reference-encoded bytes differs from the reference decode: " + d);
